@@ -100,14 +100,7 @@ Section Spec.
     end.
 
   (* where a delete lands: the effective path, or the list entry when a key leaf of it is named *)
-  Definition del_landing (pl : plugin) (p : gpath) : outcome str :=
-    let path := effective_path prefix p in
-    match find_path_from_model path (pl_rw pl) false with
-    | FoundExact e => if rw_is_key e && negb (suffixb [c_rbr] path) then cut_last_slash path else Ok path
-    | FoundPrefix => Ok path
-    | NotInModel => Err CInvalid
-    | NotExact => Err CInternal
-    end.
+  Definition del_landing (pl : plugin) (p : gpath) : outcome str := delete_landing (pl_rw pl) prefix p.
 
   (* what a single (non-JSON) update must satisfy *)
   Definition upd_checked (pl : plugin) (u : update) : outcome (str * tval) :=
@@ -139,8 +132,8 @@ Section Spec.
       end
     end.
 
-  (* the operation is admissible: its target resolves and its path/value pass the model checks *)
-  Definition op_admitted (o : rop) : Prop :=
+  (* the operation passes: its target resolves and its path/value pass the model checks *)
+  Definition op_passes (o : rop) : Prop :=
     exists pl fl, resolve_target (etgt prefix o) = Ok pl /\ flat_op pl o = Ok fl.
 
   (* flat operations addressed to target id, in request order *)
@@ -178,7 +171,7 @@ Section Spec.
        resolve_target id = Ok (ti_plugin ti) /\
        ti_removes ti = dels_of (flat_for id h) /\
        (forall p, aget (ti_updates ti) p = last_upd (flat_for id h) p)) /\
-    (forall o, In o h -> op_admitted o).
+    (forall o, In o h -> op_passes o).
 
   Lemma inv_init : inv [] (mkSt [] over0).
   Proof.
@@ -280,13 +273,8 @@ Section Spec.
     exists q, del_landing (ti_plugin ti) p = Ok q /\
               ti' = mkTi (ti_plugin ti) (ti_updates ti) (ti_removes ti ++ [q]).
   Proof.
-    unfold do_delete, del_landing.
-    destruct (find_path_from_model (effective_path prefix p) (pl_rw (ti_plugin ti)) false) as [e| | |]; try discriminate.
-    - destruct (rw_is_key e && negb (suffixb [c_rbr] (effective_path prefix p))).
-      + destruct (cut_last_slash (effective_path prefix p)) as [q| |]; cbn; try discriminate.
-        intros [= <-]. exists q. auto.
-      + cbn. intros [= <-]. eexists. split; reflexivity.
-    - intros [= <-]. eexists. split; reflexivity.
+    unfold do_delete, del_landing. intros H. apply bind_ok in H. destruct H as (q & L & H).
+    injection H as <-. exists q. auto.
   Qed.
 
   Lemma do_update_spec u ti ti' :
@@ -368,7 +356,7 @@ Section Spec.
         rewrite (flat_for_same h o _ fl RT F), last_upd_app, U', HU. reflexivity.
       + rewrite Others in H; [|intros ->; rewrite eqb_str_refl in E; discriminate].
         rewrite flat_for_other; [|apply eqb_str_neq; exact E]. apply (TI id ti0 H).
-    - (* every operation so far was admitted *)
+    - (* every operation so far passed the checks *)
       intros o' Ho'. apply in_app_or in Ho'. destruct Ho' as [Ho'|[<-|[]]]; [apply ADM; exact Ho'|].
       exists (ti_plugin ti), fl. auto.
   Qed.
@@ -493,7 +481,7 @@ Qed.
 Theorem accepted_all_checked strict cfg orc req t :
   set_resolve strict cfg orc req = Ok t ->
   exists over0, get_overrides (r_ext req) = Ok over0 /\
-    forall o, In o (ops_of req) -> op_admitted cfg orc (r_prefix req) over0 o.
+    forall o, In o (ops_of req) -> op_passes cfg orc (r_prefix req) over0 o.
 Proof.
   intros H. destruct (set_resolve_ok _ _ _ _ _ H) as (over0 & s & O & _ & _ & R & _).
   exists over0. split; [exact O|].
@@ -565,7 +553,24 @@ Corollary refused_delete_not_in_model strict cfg orc req over0 p pl :
 Proof.
   intros O I R NW t H. destruct (accepted_all_checked _ _ _ _ _ H) as (ov & O' & A).
   rewrite O in O'. injection O' as <-. destruct (A _ I) as (pl' & fl & R' & F).
-  rewrite R in R'. injection R' as <-. cbn in F. unfold del_landing in F. rewrite NW in F. discriminate.
+  rewrite R in R'. injection R' as <-. cbn in F. unfold del_landing, delete_landing in F. rewrite NW in F. discriminate.
+Qed.
+
+(* a delete of a subtree (not an exact model path) with an index value outside [a-zA-Z0-9*._-] (fix a2a122e) *)
+Corollary refused_delete_bad_index_value strict cfg orc req over0 p pl n v :
+  get_overrides (r_ext req) = Ok over0 -> In (RDel p) (ops_of req) ->
+  resolve_target cfg over0 (etgt (r_prefix req) (RDel p)) = Ok pl ->
+  find_path_from_model (effective_path (r_prefix req) p) (pl_rw pl) false = FoundPrefix ->
+  In (n, v) (extract_index_names (effective_path (r_prefix req) p)) -> index_value_ok v = false ->
+  forall t, set_resolve strict cfg orc req <> Ok t.
+Proof.
+  intros O I R FP IN BAD t H. destruct (accepted_all_checked _ _ _ _ _ H) as (ov & O' & A).
+  rewrite O in O'. injection O' as <-. destruct (A _ I) as (pl' & fl & R' & F).
+  rewrite R in R'. injection R' as <-. cbn in F. unfold del_landing, delete_landing in F. rewrite FP in F. cbn [bind] in F.
+  assert (FA : forallb (fun nv => index_value_ok (snd nv)) (extract_index_names (effective_path (r_prefix req) p)) = false).
+  { destruct (forallb _ _) eqn:FA; [|reflexivity].
+    rewrite forallb_forall in FA. specialize (FA _ IN). cbn in FA. congruence. }
+  rewrite FA in F. discriminate.
 Qed.
 
 (* a list-key leaf whose value is not the value of that key in the path of its own list entry *)
@@ -682,7 +687,7 @@ Proof.
   - destruct (last_upd _ p); cbn; discriminate.
 Qed.
 
-(* (3) size limit, for any limit: a positive limit admits one target and at most `limit` logged changes *)
+(* (3) size limit, for any limit: a positive limit allows one target and at most `limit` logged changes *)
 Theorem limit_respected strict cfg orc req t :
   set_resolve strict cfg orc req = Ok t -> (0 < sc_limit cfg)%Z ->
   exists id ch, tx_changes t = [(id, ch)] /\ (Z.of_nat (List.length ch) <= sc_limit cfg)%Z.
